@@ -40,11 +40,13 @@ type (
 		waiting     bool
 		closing     bool
 		inbound     []byte
+		onExit      func() // called when the connection's goroutine ends
 	}
 )
 
-func newClientCxn(l lane.Lane, cxn net.Conn, dispatcher *cmdDispatcher) *clientCxn {
+func newClientCxn(l lane.Lane, cxn net.Conn, dispatcher *cmdDispatcher, onExit func()) *clientCxn {
 	cc := &clientCxn{
+		onExit:      onExit,
 		cxn:         cxn,
 		started:     time.Now(),
 		socketState: csNone,
@@ -143,6 +145,10 @@ func waitForAllCxnClose() {
 }
 
 func (cc *clientCxn) run() {
+	if cc.onExit != nil {
+		defer cc.onExit()
+	}
+
 	for {
 		event := <-cc.csceCh
 
@@ -181,6 +187,12 @@ func (cc *clientCxn) onWaitForCommand() {
 	cmd, length := cc.parseCommand()
 	if length == 0 {
 		cc.mu.Lock()
+		if cc.closing {
+			// RequestClose ran since the state machine last looked, and could not
+			// interrupt a read that had not started yet; its terminate event is queued
+			cc.mu.Unlock()
+			return
+		}
 		cc.waiting = true
 		cc.mu.Unlock()
 
